@@ -81,6 +81,7 @@ type ProcResult struct {
 	RealSQLRuns       int    `json:"real_sql_runs"`
 	UnsupportedRuns   int    `json:"unsupported_sql_runs"`
 	UnsupportedSample string `json:"unsupported_sql_sample,omitempty"`
+	Enum              *EnumStats `json:"enumeration,omitempty"`
 }
 
 type ReportedV struct {
@@ -268,6 +269,73 @@ func TestSim(t *testing.T) {
 	nontriv := map[string]bool{}
 	knownSeen := map[string]bool{}
 	reported := map[string]bool{}
+	handle := func(pname string, run int, rs uint64, sc *Scenario, recorded Plan, res *RunResult) {
+	for _, v := range res.Violations {
+		if k := matchKnown(known, v); k != nil {
+			line := fmt.Sprintf("KNOWN-FINDING: property=%s %s", k.Property, k.What)
+			if !knownSeen[line] {
+				knownSeen[line] = true
+				out.Known = append(out.Known, line)
+			}
+			continue
+		}
+		key := v.Property + "|" + v.Clause
+		if reported[key] {
+			continue
+		}
+		reported[key] = true
+		// minimise and write the replay file
+		msc, mplan, mres := minimise(t, cloneScenario(sc), recorded, v.Property, v.Clause)
+		stable := func(s *Scenario, pl Plan, digest string) *RunResult {
+			var last *RunResult
+			for i := 0; i < 2; i++ {
+				r := RunScenario(t, cloneScenario(s), &pl, nil)
+				if r.Harness != nil || r.Digest != digest || hasClause(r.Violations, v.Property, v.Clause) == nil {
+					return nil
+				}
+				last = r
+			}
+			return last
+		}
+		if mres != nil && stable(msc, mplan, mres.Digest) == nil {
+			// The minimised schedule only fails some of the time (the system under test has choices the
+			// simulator does not own, e.g. select among channels that are ready at once): fall back to
+			// the schedule as recorded.
+			msc, mplan, mres = cloneScenario(sc), recorded, nil
+			if r := RunScenario(t, cloneScenario(sc), &recorded, nil); r.Harness == nil && hasClause(r.Violations, v.Property, v.Clause) != nil && stable(sc, recorded, r.Digest) != nil {
+				mres = r
+			}
+		}
+		rf := ReplayFile{Version: 1, Property: v.Property, Profile: pname, Seed: *fSeed, Run: run, RunSeed: rs, Scenario: msc, Plan: mplan, Clause: v.Clause, Detail: v.Detail}
+		if mres != nil {
+			rf.Digest = mres.Digest
+			if mv := hasClause(mres.Violations, v.Property, v.Clause); mv != nil {
+				rf.Detail = mv.Detail
+			}
+		} else {
+			// no recorded schedule reproduces it reliably: the replay file re-runs the exploration run
+			// itself (seed and run index decide everything the simulator owns)
+			_ = os.MkdirAll(*fReplays, 0o755)
+			path := filepath.Join(*fReplays, fmt.Sprintf("%s-%d-%d-%s.json", v.Property, *fSeed, run, v.Clause))
+			b, _ := json.MarshalIndent(map[string]any{"version": 1, "mode": "rerun", "property": v.Property, "profile": pname, "seed": *fSeed, "run": run, "tier": *fTier, "clause": v.Clause, "detail": v.Detail}, "", " ")
+			_ = os.WriteFile(path, b, 0o644)
+			out.Violations = append(out.Violations, ReportedV{Violation: v, Replay: path, Run: run})
+			continue
+		}
+		_ = os.MkdirAll(*fReplays, 0o755)
+		path := filepath.Join(*fReplays, fmt.Sprintf("%s-%d-%d-%s.json", v.Property, *fSeed, run, v.Clause))
+		b, _ := json.MarshalIndent(rf, "", " ")
+		_ = os.WriteFile(path, b, 0o644)
+		out.Violations = append(out.Violations, ReportedV{Violation: Violation{v.Property, v.Clause, rf.Detail}, Replay: path, Run: run})
+	}
+	}
+
+	enumerateFaults(t, *fProperty, out, handle)
+	if out.Enum != nil {
+		for _, d := range out.Enum.Traces {
+			traces[d], nontriv[d] = true, true
+		}
+	}
 	for n := 0; n < *fRuns && time.Since(start) < *fBudget; n++ {
 		run := *fFrom + n**fStride
 		rs := RunSeed(*fSeed, uint64(run))
@@ -360,64 +428,7 @@ func TestSim(t *testing.T) {
 			}
 			continue
 		}
-		for _, v := range res.Violations {
-			if k := matchKnown(known, v); k != nil {
-				line := fmt.Sprintf("KNOWN-FINDING: property=%s %s", k.Property, k.What)
-				if !knownSeen[line] {
-					knownSeen[line] = true
-					out.Known = append(out.Known, line)
-				}
-				continue
-			}
-			key := v.Property + "|" + v.Clause
-			if reported[key] {
-				continue
-			}
-			reported[key] = true
-			// minimise and write the replay file
-			msc, mplan, mres := minimise(t, cloneScenario(sc), res.Recorded, v.Property, v.Clause)
-			stable := func(s *Scenario, pl Plan, digest string) *RunResult {
-				var last *RunResult
-				for i := 0; i < 2; i++ {
-					r := RunScenario(t, cloneScenario(s), &pl, nil)
-					if r.Harness != nil || r.Digest != digest || hasClause(r.Violations, v.Property, v.Clause) == nil {
-						return nil
-					}
-					last = r
-				}
-				return last
-			}
-			if mres != nil && stable(msc, mplan, mres.Digest) == nil {
-				// The minimised schedule only fails some of the time (the system under test has choices the
-				// simulator does not own, e.g. select among channels that are ready at once): fall back to
-				// the schedule as recorded.
-				msc, mplan, mres = cloneScenario(sc), res.Recorded, nil
-				if r := RunScenario(t, cloneScenario(sc), &res.Recorded, nil); r.Harness == nil && hasClause(r.Violations, v.Property, v.Clause) != nil && stable(sc, res.Recorded, r.Digest) != nil {
-					mres = r
-				}
-			}
-			rf := ReplayFile{Version: 1, Property: v.Property, Profile: p.Name, Seed: *fSeed, Run: run, RunSeed: rs, Scenario: msc, Plan: mplan, Clause: v.Clause, Detail: v.Detail}
-			if mres != nil {
-				rf.Digest = mres.Digest
-				if mv := hasClause(mres.Violations, v.Property, v.Clause); mv != nil {
-					rf.Detail = mv.Detail
-				}
-			} else {
-				// no recorded schedule reproduces it reliably: the replay file re-runs the exploration run
-				// itself (seed and run index decide everything the simulator owns)
-				_ = os.MkdirAll(*fReplays, 0o755)
-				path := filepath.Join(*fReplays, fmt.Sprintf("%s-%d-%d-%s.json", v.Property, *fSeed, run, v.Clause))
-				b, _ := json.MarshalIndent(map[string]any{"version": 1, "mode": "rerun", "property": v.Property, "profile": p.Name, "seed": *fSeed, "run": run, "tier": *fTier, "clause": v.Clause, "detail": v.Detail}, "", " ")
-				_ = os.WriteFile(path, b, 0o644)
-				out.Violations = append(out.Violations, ReportedV{Violation: v, Replay: path, Run: run})
-				continue
-			}
-			_ = os.MkdirAll(*fReplays, 0o755)
-			path := filepath.Join(*fReplays, fmt.Sprintf("%s-%d-%d-%s.json", v.Property, *fSeed, run, v.Clause))
-			b, _ := json.MarshalIndent(rf, "", " ")
-			_ = os.WriteFile(path, b, 0o644)
-			out.Violations = append(out.Violations, ReportedV{Violation: Violation{v.Property, v.Clause, rf.Detail}, Replay: path, Run: run})
-		}
+		handle(p.Name, run, rs, sc, res.Recorded, res)
 		if len(out.Violations) >= 3 {
 			break
 		}
